@@ -22,6 +22,7 @@ From NextestModel Require Model.EnvOrder Proofs.EnvOrder.
 From NextestModel Require Model.ProfileChain Proofs.ProfileChain.
 From NextestModel Require Model.LibtestReport Proofs.LibtestReport.
 From NextestModel Require Model.ApplyEnv Proofs.ApplyEnv.
+From NextestModel Require Model.Classify Model.LeakVerdict Proofs.LeakVerdict.
 Import ListNotations.
 Open Scope N_scope.
 
@@ -40,6 +41,9 @@ Module PEO := NextestModel.Proofs.EnvOrder.
 Module MPC := NextestModel.Model.ProfileChain.
 Module MLR := NextestModel.Model.LibtestReport.
 Module MAE := NextestModel.Model.ApplyEnv.
+Module MCl := NextestModel.Model.Classify.
+Module MLV := NextestModel.Model.LeakVerdict.
+Module PLV := NextestModel.Proofs.LeakVerdict.
 Module PAE := NextestModel.Proofs.ApplyEnv.
 Module PLR := NextestModel.Proofs.LibtestReport.
 Module PPC := NextestModel.Proofs.ProfileChain.
@@ -1085,3 +1089,14 @@ Proof.
   apply (PAE.every_enabled_binding_written _ _ _ enabled (env_maps_to_model maps) s (G.SetupScriptEnvMap_env_map m)); [|exact He|exact Hk].
   unfold env_maps_to_model. apply in_map_iff. exists (s, m). split; [reflexivity | exact Hd].
 Qed.
+
+(* ---------------------------------------------------------------- the path of the leak verdict (Model/LeakVerdict.v, C03; fifth round) *)
+(* == block leak_verdict_unchanged == *)
+(* run_test_inner / run_setup_script_inner: the `leaked` argument of the create_execution_result call the status is
+   built from (inside `status.unwrap_or_else(|| ..)`), regenerated from the source together with the `let`s it depends
+   on, as a function of the value detect_fd_leaks(..).await yielded (an opaque input): it IS that value. *)
+Lemma gen_leak_verdict_unchanged :
+  forall detected,
+    G.run_test_leak_verdict detected = MLV.verdict_of_detection detected /\
+    G.run_script_leak_verdict detected = MLV.verdict_of_detection detected.
+Proof. intros detected. split; bridge. Qed.
